@@ -131,9 +131,9 @@ var sharedRules = map[string]map[string][]string{
 	"C04": {"C03": {"history-pairing", "every-entry"}, "C09": {"cache-invalidate", "reorg"}},
 	"C05": {"C16": {"floor-first", "marker-with-history"}, "C09": {"reorg", "cache-invalidate"}, "C08": {"cache-coherence"}},
 	"C06": {"C02": {"verify-success"}},
-	"C07": {"C08": {"index-every-tx"}},
-	"C08": {"C03": {"every-entry", "gates", "history-pairing"}},
-	"C13": {"C14": {"min-over-all-refs"}},
+	"C07": {"C08": {"index-every-tx", "cache-coherence"}},
+	"C08": {"C03": {"every-entry", "gates", "history-pairing"}, "C11": {"no-pooled-escape"}},
+	"C13": {"C14": {"min-over-all-refs", "prune-filter-agreement"}},
 	"C17": {"C08": {"atomic-check-then-store"}},
 }
 
